@@ -24,6 +24,12 @@ def handleC19 : Handler := fun args =>
     match natArgs [v, t, l, i] with
     | some [v, t, l, i] => s!"ok x{hexOf (writeHeader (Header.mk v t l i))}"
     | _ => "bad-op"
+  | ["ctor-accepts", t, k] =>
+    -- the exported message constructors (k = 0 NewHdrOnlyMsg, 1 NewByteMessage with 3 bytes, 2 with none) accept a type
+    -- exactly when the translated validateHeader does
+    match t.toNat?, k.toNat? with
+    | some t, some k => toString (Gen.llrp_validateHeader (if k = 1 then 3 else 0) t)
+    | _, _ => "bad-op"
   | ["isvalid", t] =>
     match t.toNat? with
     | some t => toString (Gen.llrp_MessageType_IsValid t)
